@@ -211,10 +211,14 @@ def run(ctx):
                   "workers_2_late_registrants_2": "wedge reachable (expected counterexample of NoWedge)" if reach else "wedge not reachable"}
         ctx.log("extension ShutdownLock: the NoWedge counterexample above is the expected, reported-as-note outcome")
 
+    # the HTTP/1.1 clause of "winds down gracefully": what graceful_shutdown flushes (Http1Down.tla)
+    import c08
+    dj = c08.down_job(ctx)
     ev = sum(x["evaluations"] for x in ctx.harness_runs)
     nt = sum(x["distinct_nontrivial"] for x in ctx.harness_runs)
     return ctx.finish("model_checking", {
         "states": states, "transitions": trans,
+        "http1_flush_and_close": dj,
         "traces_validated_against_impl": behaviours + traces,
         "replayed_behaviours": behaviours,
         "recorded_traces": traces,
